@@ -94,7 +94,7 @@ def run(run):
     run.bounds['lexer'] = ('every string of <= ' + ('2' if quick else '3') + ' Unicode scalar values (all of Unicode per position); delimited forms with 1' + ('' if quick else '-2') + ' symbolic characters between quotes/backticks, '
                            'unterminated forms, backslash-escape forms; digit runs of 10-11 symbolic digits around the i32 boundary, with and without a leading minus')
     import time as _t
-    run.deadline = max(run.deadline, _t.time() + (60 if run.tier == 'quick' else 900))      # each phase gets its own slice of the budget
+    run.deadline = max(run.deadline, _t.time() + (100 if run.tier == 'quick' else 900))      # each phase gets its own slice of the budget
     LJ.run_sharded(run, PROG, specs, 'mirsym: Lexer::tokenize on symbolic code points vs reference lexer', keyprefix='c03')
     run.cands = select(run, run.cands)
     run.confirm_all(confirm)
